@@ -610,6 +610,8 @@ class BlobReplayer:
         th.start()
         if not reached.wait(60):
             raise RuntimeError('the second writer did not get to its %s' % meth)
+        if self._th_exc is not None:
+            self._late()
         if not late:
             self._late()
 
@@ -829,6 +831,15 @@ def replay_behaviour(job):
                            'what': what, 'detail': detail[:4], 'prefix': [fmt(s) for s in steps[:i + 1]],
                            'phase': steps[i]['state']['txn']['phase'], 'who': steps[i]['state']['txn']['who']}
 
+    def corrupted(i):
+        """a CURRENT committed revision has lost its blob file (reported): what the calls after that do to the
+        corrupted database is not compared"""
+        st = steps[i]['state']
+        snap = _fn(st['osnap'])
+        last = _fn(snap[max(snap)]) if snap else {}
+        return (any(v['kind'].startswith('file-removed-by-') for v in st['viol']) or
+                any(tuple(v) == ('lost',) for v in last.values()))
+
     def note_viol(i):
         for v in steps[i]['state']['viol']:
             key = (v['inv'], v['kind'])
@@ -882,6 +893,8 @@ def replay_behaviour(job):
                 if ch[-1]['name'] == 'Finish':
                     res['txns'] += 1
                 i = j + 1
+                if res['mismatch'] is None and corrupted(j):
+                    break
                 continue
             res['sig'].append(fmt(s))
             res['actions'][name] += 1
@@ -898,6 +911,8 @@ def replay_behaviour(job):
                 break
             note_viol(i)
             res['steps'] += 1
+            if corrupted(i):
+                break
             if name == 'OtherCommit':
                 res['txns'] += 1
             if name == 'Pack':
